@@ -811,73 +811,6 @@ Proof. reflexivity. Qed.
 Lemma last_res_snoc d o r : last_res (d ++ [(o, r)]) = r.
 Proof. unfold last_res. rewrite last_last. reflexivity. Qed.
 
-Lemma oracle_seq_model w : forall acts cfg m hist,
-  J acts cfg m hist ->
-  oracle_seq w acts (snd (run_acts w acts cfg)) m hist (g_refs (fst (run_acts w acts cfg))) = true.
-Proof.
-  induction acts as [|a t IH]; intros cfg m hist [Hm Hc].
-  - cbn. rewrite Hm. apply refs_eqb_refl.
-  - destruct a as [c|c o].
-    + (* rebase *)
-      cbn [run_acts oracle_seq]. apply IH.
-      destruct (step_char w cfg c SRebase) as [H1 H2]. unfold proj in H1.
-      destruct (Hc c) as [Hp [Ht Hv]].
-      cbn [cstep] in H1. rewrite Hp in H1.
-      pose proof (f_equal (fun t => fst (fst t)) H1) as G. pose proof (f_equal snd H1) as C.
-      cbn [fst snd] in G, C. split; [rewrite G; exact Hm|].
-      intros c'. destruct (N.eq_dec c' c) as [->|Hne].
-      * rewrite C. cbn [c_pc c_todo c_view]. rewrite ?Hp, ?Ht, ?Hm. split; [reflexivity | split; [reflexivity | left; reflexivity]].
-      * rewrite H2 by exact Hne. apply Hc.
-    + (* a call *)
-      cbn [run_acts].
-      set (cfg' := run w (call_steps c) cfg).
-      destruct (run_acts w t cfg') as [cf rs] eqn:R. cbn [fst snd oracle_seq].
-      destruct (Hc c) as [Hp [Ht Hv]].
-      destruct (g_clients cfg c) as [td p f v d] eqn:Ecl. cbn [c_pc c_todo c_view] in Hp, Ht, Hv. subst p.
-      rewrite progs_of_op, N.eqb_refl in Ht. cbn [app] in Ht. subst td.
-      destruct (run_char w c call_labels cfg) as [H1 H2].
-      change (map (fun l => (c, l)) call_labels) with (call_steps c) in H1, H2. fold cfg' in H1, H2.
-      unfold proj in H1. rewrite Ecl, Hm in H1.
-      change {| c_todo := o :: progs_of t c; c_pc := PIdle; c_first := f; c_view := v; c_done := d |}
-        with (mkc (o :: progs_of t c) PIdle f v d) in H1.
-      rewrite call_char in H1.
-      pose proof (call_fn_cases w m v o hist Hv) as Hcases.
-      destruct (call_fn w m v o) as [[[r g'] v'] ch] eqn:CF.
-      pose proof (f_equal (fun t => fst (fst t)) H1) as G. pose proof (f_equal snd H1) as C.
-      cbn [fst snd] in G, C. clear H1. rewrite C. unfold mkc. cbn [c_done]. rewrite last_res_snoc.
-      assert (Hothers : forall c', c' <> c ->
-                c_pc (g_clients cfg' c') = PIdle /\ c_todo (g_clients cfg' c') = progs_of t c'
-                /\ In (c_view (g_clients cfg' c')) (m :: hist)).
-      { intros c' Hne. rewrite H2 by exact Hne. destruct (Hc c') as [Q1 [Q2 Q3]].
-        rewrite progs_of_op in Q2. assert (E : (c =? c') = false) by (apply N.eqb_neq; congruence).
-        rewrite E in Q2. auto. }
-      specialize (IH cfg'). rewrite R in IH. cbn [fst snd] in IH.
-      destruct Hcases as [[Ht1 [Hg' Hv']] | [Ht1 [Hg' [Hv' Hex]]]]; rewrite Ht1.
-      * apply IH. split; [rewrite G; exact Hg'|].
-        intros c'. destruct (N.eq_dec c' c) as [->|Hne].
-        -- rewrite C. unfold mkc. cbn [c_pc c_todo c_view]. subst v' g'.
-           split; [reflexivity | split; [reflexivity | left; reflexivity]].
-        -- destruct (Hothers c' Hne) as [Q1 [Q2 Q3]]. split; [exact Q1 | split; [exact Q2 | right; exact Q3]].
-      * unfold seq_explained in Hex. rewrite Hex. apply IH. split; [rewrite G; exact Hg'|].
-        intros c'. destruct (N.eq_dec c' c) as [->|Hne].
-        -- rewrite C. unfold mkc. cbn [c_pc c_todo c_view].
-           split; [reflexivity | split; [reflexivity | exact Hv']].
-        -- apply Hothers. exact Hne.
-Qed.
-
-(* Excluded class: none for sequential histories (the registered finding
-   nbs-manifest-lock:identical-concurrent-update-both-succeed needs two concurrent calls).
-   Concurrent batches have no single model observation: their check IS the oracle. *)
-Theorem oracle_model_obs :
-  forall i : input, i_conc i = false -> oracle i (model_obs i) = true.
-Proof.
-  intros i Hc. unfold oracle, model_obs. rewrite Hc.
-  pose proof (oracle_seq_model (i_world i) (i_acts i) (init (i_m0 i) (progs_of (i_acts i))) (i_m0 i) []) as H.
-  destruct (run_acts (i_world i) (i_acts i) (init (i_m0 i) (progs_of (i_acts i)))) as [cfg rs].
-  cbn [o_results o_final]. apply H. split; [reflexivity|].
-  intros c. cbn. split; [reflexivity | split; [reflexivity | left; reflexivity]].
-Qed.
-
 Lemma run_call_char w c cfg :
   proj (run w (call_steps c) cfg) c = fold_left (cstep w c) call_labels (proj cfg c)
   /\ forall c', c' <> c -> g_clients (run w (call_steps c) cfg) c' = g_clients cfg c'.
@@ -954,3 +887,34 @@ Proof.
   apply existsb_exists in E as [st [_ E]]. cbn zeta in E. rewrite Hrep in E.
   destruct (guard w st o); cbn in E; discriminate.
 Qed.
+
+Lemma oracle_seq_model w : forall acts cfg m hist,
+  J acts cfg m hist ->
+  oracle_seq w acts (snd (run_acts w acts cfg)) m hist (g_refs (fst (run_acts w acts cfg))) = true.
+Proof.
+  induction acts as [|a t IH]; intros cfg m hist HJ.
+  - destruct HJ as [Hm _]. cbn. rewrite Hm. apply refs_eqb_refl.
+  - destruct a as [c|c o].
+    + cbn [run_acts oracle_seq]. apply IH. apply (rebase_summary w c t cfg m hist HJ).
+    + cbn [run_acts].
+      remember (run w (call_steps c) cfg) as cfg' eqn:Hcfg'.
+      destruct (run_acts w t cfg') as [cf rs] eqn:R. cbn [fst snd oracle_seq].
+      specialize (IH cfg'). rewrite R in IH. cbn [fst snd] in IH.
+      destruct (call_summary w c o t cfg m hist HJ cfg' _ Hcfg' eq_refl) as [[T [G J']]|[T [G [E J']]]]; rewrite T.
+      * apply IH. exact J'.
+      * unfold seq_explained in E. rewrite E. apply IH. exact J'.
+Qed.
+
+(* Excluded class: none for sequential histories (the registered finding
+   nbs-manifest-lock:identical-concurrent-update-both-succeed needs two concurrent calls).
+   Concurrent batches have no single model observation: their check IS the oracle. *)
+Theorem oracle_model_obs :
+  forall i : input, i_conc i = false -> oracle i (model_obs i) = true.
+Proof.
+  intros i Hc. unfold oracle, model_obs. rewrite Hc.
+  pose proof (oracle_seq_model (i_world i) (i_acts i) (init (i_m0 i) (progs_of (i_acts i))) (i_m0 i) []) as H.
+  destruct (run_acts (i_world i) (i_acts i) (init (i_m0 i) (progs_of (i_acts i)))) as [cfg rs].
+  cbn [o_results o_final]. apply H. split; [reflexivity|].
+  intros c. cbn. split; [reflexivity | split; [reflexivity | left; reflexivity]].
+Qed.
+
